@@ -1,5 +1,6 @@
 import ITree.Lemmas.ArenaOps
 import ITree.Lemmas.ArenaDeleteTop
+import ITree.Lemmas.ArenaExpire
 import ITree.Lemmas.MapWF
 /-!
 # Arena level (pointer code with parent links) — theorems shared by C02, C08, C09, C10, C11, C17
@@ -71,6 +72,23 @@ theorem arena_deleteByIndex_refines {a : Arena V} {st st' : St V} (slot : Nat) (
 
 /-- the delete repair alone, in any context: `fix_red_black_properties_after_delete` realises `fixUpD` -/
 theorem arena_fixDelete_refines (fuel : Nat) : FixDeleteSpec (V := V) fuel := fixDelete_rep fuel
+
+/-- **expiring tree, queries**: `first_less`, `first_less_or_equal(_by)` and `get_value` of the pointer code —
+`expire_root` / `expire_left` / `expire_right` with their `delete_index` calls re-reading the link after
+every lazy removal — return the answer of the zipper model and leave the state it leaves. -/
+theorem arena_kQuery_refines {a : Arena V} {st st' : St V} (h : RepSt a st) (hw : WF st)
+    (hsize : a.nodes.size ≤ EMPTY) (mode : Mode) (time : Int) (f : Int → Ordering) {r : Option V}
+    {tr : List (Ev V)} (hm : st.kQuery mode time f = some (st', r, tr)) :
+    ∃ a', a.kQuery mode time f = some (a', r) ∧ RepSt a' st' ∧ WF st' :=
+  let ⟨a', h1, h2, h3, _⟩ := kQuery_rep h hw hsize mode time f hm
+  ⟨a', h1, h2, h3⟩
+
+/-- **expiring tree, insert** (lazy removals on the descent, allocation with growth, linking, repair) -/
+theorem arena_kInsert_refines {a : Arena V} {st st' : St V} (h : RepSt a st) (hw : WF st)
+    (hB : a.nodes.size + max a.cap (2 * a.nodes.size + 4) ≤ EMPTY) (e : Ent V) (time : Int) {tr : List (Ev V)}
+    (hm : st.kInsert e time = some (st', tr)) :
+    ∃ a', a.kInsert e time = some a' ∧ RepSt a' st' :=
+  kInsert_rep h hw hB e time hm
 
 /-- non-vacuity: three insertions into a new arena, computed by the pointer code, are represented -/
 example : ∃ a', ((Arena.new 8 (⟨0, 0, 0⟩ : Ent Nat)).insert ⟨5, 0, 50⟩) = some a' ∧
